@@ -515,6 +515,14 @@ def r7_targets_are_row_entities(ctx, res):
         raise AnalysisError(f'only {n} field-wise entity constructions found in wn/_core.py')
 
 
+def r8_iter_relations_unconditional(ctx, res):
+    """Synset._iter_relations yields the synset's own relations and (with an ILI and expand lexicons) the borrowed ones for
+    EVERY requested type list - in particular for relation types outside the standard inventory, which add() stores as they are
+    (shape of C12-R3: no other condition, no early exit)."""
+    from .c12 import r3_order_and_switch
+    r3_order_and_switch(ctx, res)
+
+
 RULES = [
     ('C11-R1', r1_termination, 6),
     ('C11-R2', r2_sibling_relation_queries, 10),
@@ -523,4 +531,5 @@ RULES = [
     ('C11-R5', r5_dedupe, 6),
     ('C11-R6', r6_visited_by_entity, 4),
     ('C11-R7', r7_targets_are_row_entities, 3),
+    ('C11-R8', r8_iter_relations_unconditional, 1),
 ]
